@@ -3,6 +3,7 @@ package router
 import (
 	"fmt"
 	"maps"
+	"math"
 	"slices"
 	"time"
 
@@ -1055,14 +1056,19 @@ func (b *broker) subEventHistory(msg *wamp.Invocation) wamp.Message {
 		}
 	}
 
-	limit, ok = msg.ArgumentsKw["limit"].(int)
-	if ok && limit < 1 {
-		return &wamp.Error{
-			Type:    msg.MessageType(),
-			Request: msg.Request,
-			Details: wamp.Dict{},
-			Error:   wamp.ErrInvalidArgument,
+	// Integer arguments arrive as whatever integer type the caller's
+	// serializer produced.
+	if limitOp, found := msg.ArgumentsKw["limit"]; found {
+		limit64, isInt := wamp.AsInt64(limitOp)
+		if !isInt || limit64 < 1 {
+			return &wamp.Error{
+				Type:    msg.MessageType(),
+				Request: msg.Request,
+				Details: wamp.Dict{},
+				Error:   wamp.ErrInvalidArgument,
+			}
 		}
+		limit = int(min(limit64, int64(math.MaxInt)))
 	}
 
 	reverseOp, ok := msg.ArgumentsKw["reverse"]
@@ -1137,7 +1143,7 @@ func (b *broker) subEventHistory(msg *wamp.Invocation) wamp.Message {
 
 	fromPubOp, ok := msg.ArgumentsKw["from_publication"]
 	if ok {
-		fromPub, ok = fromPubOp.(wamp.ID)
+		fromPub, ok = wamp.AsID(fromPubOp)
 		if !ok || fromPub < 1 {
 			return &wamp.Error{
 				Type:    msg.MessageType(),
@@ -1151,7 +1157,7 @@ func (b *broker) subEventHistory(msg *wamp.Invocation) wamp.Message {
 
 	afterPubOp, ok := msg.ArgumentsKw["after_publication"]
 	if ok {
-		afterPub, ok = afterPubOp.(wamp.ID)
+		afterPub, ok = wamp.AsID(afterPubOp)
 		if !ok || afterPub < 1 {
 			return &wamp.Error{
 				Type:    msg.MessageType(),
@@ -1164,7 +1170,7 @@ func (b *broker) subEventHistory(msg *wamp.Invocation) wamp.Message {
 
 	beforePubOp, ok := msg.ArgumentsKw["before_publication"]
 	if ok {
-		beforePub, ok = beforePubOp.(wamp.ID)
+		beforePub, ok = wamp.AsID(beforePubOp)
 		if !ok || beforePub < 1 {
 			return &wamp.Error{
 				Type:    msg.MessageType(),
@@ -1177,7 +1183,7 @@ func (b *broker) subEventHistory(msg *wamp.Invocation) wamp.Message {
 
 	untilPubOp, ok := msg.ArgumentsKw["until_publication"]
 	if ok {
-		untilPub, ok = untilPubOp.(wamp.ID)
+		untilPub, ok = wamp.AsID(untilPubOp)
 		if !ok || untilPub < 1 {
 			return &wamp.Error{
 				Type:    msg.MessageType(),
